@@ -849,11 +849,55 @@ func (s *fstate) call(ins ssa.Instruction, c *ssa.CallCommon, res ssa.Value) {
 	}
 	for _, g := range callees {
 		if g.Blocks == nil || s.a.sums[g] == nil {
+			// a method expression of an interface, `Location.Shift`, is a synthetic thunk whose first
+			// parameter is the receiver: the call is the interface call it wraps
+			if impls := s.a.thunkTargets(g); len(impls) > 0 && len(args) > 0 {
+				for _, f := range impls {
+					if f.Blocks != nil && s.a.sums[f] != nil {
+						s.apply(ins, pos, res, f, args, c.Value)
+					} else {
+						s.external(ins, c, res, f.String(), args)
+					}
+				}
+				continue
+			}
 			s.external(ins, c, res, g.String(), args)
 			continue
 		}
 		s.apply(ins, pos, res, g, args, c.Value)
 	}
+}
+
+// thunkTargets: for the synthetic thunk of an interface method expression, the methods of the
+// repository types that implement the interface.
+func (a *Analysis) thunkTargets(g *ssa.Function) []*ssa.Function {
+	if g.Synthetic == "" || !strings.HasSuffix(g.Name(), "$thunk") || len(g.Params) == 0 {
+		return nil
+	}
+	iface, _ := g.Params[0].Type().Underlying().(*types.Interface)
+	if iface == nil {
+		return nil
+	}
+	name := strings.TrimSuffix(g.Name(), "$thunk")
+	var method *types.Func
+	for i := 0; i < iface.NumMethods(); i++ {
+		if iface.Method(i).Name() == name {
+			method = iface.Method(i)
+		}
+	}
+	if method == nil {
+		return nil
+	}
+	var out []*ssa.Function
+	for _, t := range a.implementers(iface) {
+		ms := a.prog.SSA.MethodSets.MethodSet(t)
+		if sel := ms.Lookup(method.Pkg(), method.Name()); sel != nil {
+			if f := a.prog.SSA.MethodValue(sel); f != nil {
+				out = append(out, f)
+			}
+		}
+	}
+	return out
 }
 
 func fullSlice(v ssa.Value) bool {
